@@ -10,6 +10,8 @@ import (
 	"errors"
 	"fmt"
 	"io"
+	"os"
+	"reflect"
 
 	"github.com/parquet-go/parquet-go"
 	"github.com/parquet-go/parquet-go/encoding/thrift"
@@ -136,4 +138,56 @@ func dictLimitVerdict(data []byte, m *format.ColumnMetaData, chunk parquet.Colum
 		}
 	}
 	return "", ""
+}
+
+// statsText renders the statistics of a column chunk: which of the optional
+// bounds are set (nil: the field is absent from the footer; an empty bound is
+// set) and their bytes, the counts.  Bounds are compared as values of the
+// column's order: a FLOAT / DOUBLE bound that is a zero is rendered without its
+// sign (-0 and +0 compare equal, which of them a page reports as its minimum
+// depends on where the page boundaries fall, and those may differ).
+func statsText(s format.Statistics, typ int) string {
+	b := func(v []byte) string {
+		if v == nil {
+			return "unset"
+		}
+		if os.Getenv("C11_RAWZERO") == "" && (typ == int(format.Float) && len(v) == 4 || typ == int(format.Double) && len(v) == 8) && v[len(v)-1]&0x7f == 0 {
+			zero := true
+			for _, x := range v[:len(v)-1] {
+				zero = zero && x == 0
+			}
+			if zero {
+				return "zero"
+			}
+		}
+		return fmt.Sprintf("x%x", v)
+	}
+	return fmt.Sprintf("min_value=%s max_value=%s min=%s max=%s null_count=%d distinct_count=%d", b(s.MinValue), b(s.MaxValue), b(s.Min), b(s.Max), s.NullCount, s.DistinctCount)
+}
+
+// chunkCounts: for every column chunk of rg, whether its declared value count
+// is exact (a row-range view of a repeated column cut inside a page only knows
+// an upper bound: rangeColumnChunk.exact), the declared count and the number
+// of values its pages deliver, as "e.declared.delivered" (hex).
+func chunkCounts(rg parquet.RowGroup) []string {
+	var out []string
+	for _, ch := range rg.ColumnChunks() {
+		exact := true
+		if fmt.Sprintf("%T", ch) == "*parquet.rangeColumnChunk" {
+			exact = field(reflect.ValueOf(ch).Elem(), "exact").Bool()
+		}
+		delivered := int64(0)
+		pages := ch.Pages()
+		for {
+			p, err := pages.ReadPage()
+			if err != nil {
+				break
+			}
+			delivered += p.NumValues()
+			parquet.Release(p)
+		}
+		pages.Close()
+		out = append(out, fmt.Sprintf("%s.%x.%x", b01(exact), ch.NumValues(), delivered))
+	}
+	return out
 }
